@@ -1,0 +1,356 @@
+//go:build verif
+
+package cty
+
+// This file exists only when building with the "verif" build tag. It adds
+// two read-only inspection functions used by the external verification
+// harness. It does not change any behaviour of the package.
+
+import (
+	"fmt"
+	"math/big"
+	"sort"
+	"strings"
+
+	"github.com/zclconf/go-cty/cty/set"
+)
+
+// VerifWellFormed checks that the internal representation of the given value
+// is consistent with its type, recursively. It returns nil if so.
+func VerifWellFormed(v Value) error {
+	return verifWellFormed(v, "", true)
+}
+
+func verifWellFormed(val Value, where string, markOK bool) error {
+	errf := func(f string, args ...interface{}) error {
+		return fmt.Errorf("at %q: %s", where, fmt.Sprintf(f, args...))
+	}
+	if val.ty == NilType {
+		return errf("value has NilType")
+	}
+	if err := verifTypeNoOptional(val.ty); err != nil {
+		return errf("%s", err)
+	}
+	raw := val.v
+	if mr, ok := raw.(marker); ok {
+		if !markOK {
+			return errf("marked value where marks are not allowed")
+		}
+		if len(mr.marks) == 0 {
+			return errf("marker with empty mark set")
+		}
+		if _, nested := mr.realV.(marker); nested {
+			return errf("nested marker")
+		}
+		raw = mr.realV
+	}
+	if raw == nil {
+		return nil // null
+	}
+	if unk, ok := raw.(*unknownType); ok {
+		ty := val.ty
+		switch rfn := unk.refinement.(type) {
+		case nil:
+			return nil
+		case *refinementString:
+			if ty != String {
+				return errf("string refinement on %#v", ty)
+			}
+			if rfn.prefix != NormalizeString(rfn.prefix) {
+				return errf("non-normalized prefix %q", rfn.prefix)
+			}
+		case *refinementNumber:
+			if ty != Number {
+				return errf("number refinement on %#v", ty)
+			}
+			for _, b := range []Value{rfn.min, rfn.max} {
+				if b == NilVal {
+					continue
+				}
+				if b.ty != Number {
+					return errf("numeric bound of type %#v", b.ty)
+				}
+				if _, ok := b.v.(*big.Float); !ok {
+					return errf("numeric bound with payload %T", b.v)
+				}
+			}
+		case *refinementCollection:
+			if !ty.IsCollectionType() {
+				return errf("collection refinement on %#v", ty)
+			}
+			if rfn.minLen < 0 || rfn.maxLen < rfn.minLen {
+				return errf("bad length bounds %d..%d", rfn.minLen, rfn.maxLen)
+			}
+		case *refinementNullable:
+			if ty == String || ty == Number || ty.IsCollectionType() {
+				return errf("plain nullable refinement on %#v", ty)
+			}
+			if ty == DynamicPseudoType {
+				return errf("refined dynamic value")
+			}
+		default:
+			return errf("unknown refinement kind %T", unk.refinement)
+		}
+		return nil
+	}
+	ty := val.ty
+	switch {
+	case ty == DynamicPseudoType:
+		return errf("known non-null value of dynamic pseudo-type (payload %T)", raw)
+	case ty == Bool:
+		if _, ok := raw.(bool); !ok {
+			return errf("bool payload is %T", raw)
+		}
+	case ty == Number:
+		f, ok := raw.(*big.Float)
+		if !ok {
+			return errf("number payload is %T", raw)
+		}
+		if f == nil {
+			return errf("number payload is nil *big.Float")
+		}
+	case ty == String:
+		s, ok := raw.(string)
+		if !ok {
+			return errf("string payload is %T", raw)
+		}
+		if s != NormalizeString(s) {
+			return errf("string %q not normalized", s)
+		}
+	case ty.IsListType():
+		l, ok := raw.([]interface{})
+		if !ok {
+			return errf("list payload is %T", raw)
+		}
+		ety := ty.ElementType()
+		for i, ev := range l {
+			if err := verifWellFormed(Value{ty: ety, v: ev}, fmt.Sprintf("%s[%d]", where, i), true); err != nil {
+				return err
+			}
+		}
+	case ty.IsMapType():
+		m, ok := raw.(map[string]interface{})
+		if !ok {
+			return errf("map payload is %T", raw)
+		}
+		ety := ty.ElementType()
+		for k, ev := range m {
+			if k != NormalizeString(k) {
+				return errf("map key %q not normalized", k)
+			}
+			if err := verifWellFormed(Value{ty: ety, v: ev}, fmt.Sprintf("%s[%q]", where, k), true); err != nil {
+				return err
+			}
+		}
+	case ty.IsSetType():
+		s, ok := raw.(set.Set[interface{}])
+		if !ok {
+			return errf("set payload is %T", raw)
+		}
+		rules, ok := s.Rules().(setRules)
+		if !ok {
+			return errf("set rules are %T", s.Rules())
+		}
+		ety := ty.ElementType()
+		if !rules.Type.Equals(ety) {
+			return errf("set rules type %#v but element type %#v", rules.Type, ety)
+		}
+		i := 0
+		for it := s.Iterator(); it.Next(); {
+			if err := verifWellFormed(Value{ty: ety, v: it.Value()}, fmt.Sprintf("%s{%d}", where, i), false); err != nil {
+				return err
+			}
+			if (Value{ty: ety, v: it.Value()}).ContainsMarked() {
+				return errf("set member %d contains marks", i)
+			}
+			i++
+		}
+	case ty.IsTupleType():
+		l, ok := raw.([]interface{})
+		if !ok {
+			return errf("tuple payload is %T", raw)
+		}
+		etys := ty.TupleElementTypes()
+		if len(l) != len(etys) {
+			return errf("tuple payload has %d elements, type has %d", len(l), len(etys))
+		}
+		for i, ev := range l {
+			if err := verifWellFormed(Value{ty: etys[i], v: ev}, fmt.Sprintf("%s[%d]", where, i), true); err != nil {
+				return err
+			}
+		}
+	case ty.IsObjectType():
+		m, ok := raw.(map[string]interface{})
+		if !ok {
+			return errf("object payload is %T", raw)
+		}
+		atys := ty.AttributeTypes()
+		if len(m) != len(atys) {
+			return errf("object payload has %d attributes, type has %d", len(m), len(atys))
+		}
+		for k, aty := range atys {
+			if k != NormalizeString(k) {
+				return errf("attribute name %q not normalized", k)
+			}
+			ev, ok := m[k]
+			if !ok {
+				return errf("object payload lacks attribute %q", k)
+			}
+			if err := verifWellFormed(Value{ty: aty, v: ev}, fmt.Sprintf("%s.%s", where, k), true); err != nil {
+				return err
+			}
+		}
+	case ty.IsCapsuleType():
+		// any non-nil payload; the pointer-ness is the constructor's business
+	default:
+		return errf("unsupported type %#v", ty)
+	}
+	return nil
+}
+
+func verifTypeNoOptional(ty Type) error {
+	switch {
+	case ty == NilType:
+		return fmt.Errorf("NilType inside type")
+	case ty == DynamicPseudoType, ty.IsPrimitiveType(), ty.IsCapsuleType():
+		return nil
+	case ty.IsCollectionType():
+		return verifTypeNoOptional(ty.ElementType())
+	case ty.IsTupleType():
+		for _, ety := range ty.TupleElementTypes() {
+			if err := verifTypeNoOptional(ety); err != nil {
+				return err
+			}
+		}
+		return nil
+	case ty.IsObjectType():
+		if len(ty.OptionalAttributes()) != 0 {
+			return fmt.Errorf("type %#v carries optional-attribute annotations", ty)
+		}
+		for _, aty := range ty.AttributeTypes() {
+			if err := verifTypeNoOptional(aty); err != nil {
+				return err
+			}
+		}
+		return nil
+	}
+	return fmt.Errorf("unsupported type %#v", ty)
+}
+
+// VerifFingerprint returns a deep textual dump of the internal representation
+// of the given value, including details that GoString hides (big.Float
+// precision, set bucket layout, mark sets).
+func VerifFingerprint(v Value) string {
+	var b strings.Builder
+	verifFingerprint(v.ty, v.v, &b)
+	return b.String()
+}
+
+func verifFingerprint(ty Type, raw interface{}, b *strings.Builder) {
+	fmt.Fprintf(b, "%#v:", ty)
+	if mr, ok := raw.(marker); ok {
+		var ms []string
+		for m := range mr.marks {
+			ms = append(ms, fmt.Sprintf("%#v", m))
+		}
+		sort.Strings(ms)
+		fmt.Fprintf(b, "marks%v(", ms)
+		defer b.WriteString(")")
+		raw = mr.realV
+	}
+	if raw == nil {
+		b.WriteString("null")
+		return
+	}
+	if unk, ok := raw.(*unknownType); ok {
+		b.WriteString("unknown")
+		switch rfn := unk.refinement.(type) {
+		case nil:
+		case *refinementNumber:
+			fmt.Fprintf(b, "{null=%c", rune(rfn.isNull)|' ')
+			if rfn.min != NilVal {
+				b.WriteString(" min=")
+				verifFingerprint(rfn.min.ty, rfn.min.v, b)
+				fmt.Fprintf(b, " inc=%t", rfn.minInc)
+			}
+			if rfn.max != NilVal {
+				b.WriteString(" max=")
+				verifFingerprint(rfn.max.ty, rfn.max.v, b)
+				fmt.Fprintf(b, " inc=%t", rfn.maxInc)
+			}
+			b.WriteString("}")
+		case *refinementString:
+			fmt.Fprintf(b, "{null=%c prefix=%q}", rune(rfn.isNull)|' ', rfn.prefix)
+		case *refinementCollection:
+			fmt.Fprintf(b, "{null=%c len=%d..%d}", rune(rfn.isNull)|' ', rfn.minLen, rfn.maxLen)
+		case *refinementNullable:
+			fmt.Fprintf(b, "{null=%c}", rune(rfn.isNull)|' ')
+		default:
+			fmt.Fprintf(b, "{%T}", unk.refinement)
+		}
+		return
+	}
+	switch pv := raw.(type) {
+	case bool:
+		fmt.Fprintf(b, "%t", pv)
+	case string:
+		fmt.Fprintf(b, "%q", pv)
+	case *big.Float:
+		if pv == nil {
+			b.WriteString("nilfloat")
+			return
+		}
+		fmt.Fprintf(b, "%s/p%d/m%v/%s", pv.Text('p', 0), pv.Prec(), pv.Mode(), pv.Acc())
+	case []interface{}:
+		b.WriteString("[")
+		for i, ev := range pv {
+			var ety Type
+			switch {
+			case ty.IsTupleType():
+				if etys := ty.TupleElementTypes(); i < len(etys) {
+					ety = etys[i]
+				}
+			case ty.IsListType():
+				ety = ty.ElementType()
+			}
+			verifFingerprint(ety, ev, b)
+			b.WriteString(";")
+		}
+		b.WriteString("]")
+	case map[string]interface{}:
+		keys := make([]string, 0, len(pv))
+		for k := range pv {
+			keys = append(keys, k)
+		}
+		sort.Strings(keys)
+		b.WriteString("{")
+		for _, k := range keys {
+			var ety Type
+			switch {
+			case ty.IsObjectType():
+				ety = ty.AttributeTypes()[k]
+			case ty.IsMapType():
+				ety = ty.ElementType()
+			}
+			fmt.Fprintf(b, "%q=", k)
+			verifFingerprint(ety, pv[k], b)
+			b.WriteString(";")
+		}
+		b.WriteString("}")
+	case set.Set[interface{}]:
+		// canonical iteration order (bucket layout is not observable through
+		// the API in any other way)
+		b.WriteString("set(")
+		var ety Type
+		if ty.IsSetType() {
+			ety = ty.ElementType()
+		}
+		for it := pv.Iterator(); it.Next(); {
+			verifFingerprint(ety, it.Value(), b)
+			b.WriteString(";")
+		}
+		b.WriteString(")")
+	default:
+		fmt.Fprintf(b, "%T(%p)", raw, raw)
+	}
+}
